@@ -82,6 +82,7 @@ def fs_calls(path, root):
     """the calls relevant to the store model, in order: list of dicts {i, name, path, path2, fd, ret, injected, n, pos, marker}"""
     calls, killed = parse(path)
     fds = {}
+    pos = {}
     out = []
     for idx, (pid, name, args, ret, tail) in enumerate(calls):
         inj = "(INJECTED)" in tail
@@ -98,7 +99,10 @@ def fs_calls(path, root):
                     continue
                 rec = {"name": "marker", "marker": ev}
             elif fd in fds:
-                rec = {"name": "write", "path": fds[fd], "n": n, "ret": ret}
+                rec = {"name": "write", "path": fds[fd], "n": n, "ret": ret, "pos": pos.get(fd, 0),
+                       "data": _cstr(body) if not m.group(3) else None}
+                if ret is not None and ret > 0:
+                    pos[fd] = pos.get(fd, 0) + ret
         elif name == "openat":
             m = re.match(r'^AT_FDCWD, "([^"]*)", ([A-Z_|0-9]+)', args)
             if not m or not m.group(1).startswith(root):
@@ -106,6 +110,7 @@ def fs_calls(path, root):
             p, flags = m.group(1), m.group(2)
             if ret is not None and ret >= 0:
                 fds[ret] = p
+                pos[ret] = 0
             rec = {"name": "openat", "path": p, "flags": flags, "ret": ret}
         elif name == "close":
             try:
@@ -118,6 +123,8 @@ def fs_calls(path, root):
             m = re.match(r'^(\d+), (\d+), SEEK_SET', args)
             if m and int(m.group(1)) in fds:
                 rec = {"name": "lseek", "path": fds[int(m.group(1))], "pos": int(m.group(2)), "ret": ret}
+                if ret is not None and ret >= 0:
+                    pos[int(m.group(1))] = int(m.group(2))
         elif name in ("mkdirat", "fchmodat", "unlinkat", "newfstatat"):
             m = re.match(r'^AT_FDCWD, "([^"]*)"', args)
             if m and m.group(1).startswith(root):
